@@ -73,6 +73,21 @@ func Solve(script string, dir string, name string, timeout time.Duration) SolveR
 	if err := os.WriteFile(file, []byte(script), 0o644); err != nil {
 		return SolveResult{Status: "error", Output: err.Error()}
 	}
+	// fast path: most obligations are decided by one solver at once; only the others are raced on all three
+	if len(availableSolvers) > 1 && timeout > 3*time.Second {
+		fa := availableSolvers[0].args(file, 2*time.Second)
+		fctx, fcancel := context.WithTimeout(context.Background(), 4*time.Second)
+		fstart := time.Now()
+		var fout bytes.Buffer
+		fcmd := exec.CommandContext(fctx, fa[0], fa[1:]...)
+		fcmd.Stdout = &fout
+		fcmd.Stderr = &fout
+		_ = fcmd.Run()
+		fcancel()
+		if fl := firstLine(fout.String()); fl == "unsat" || fl == "sat" {
+			return SolveResult{Status: fl, Solver: availableSolvers[0].name, Seconds: time.Since(fstart).Seconds(), Output: fout.String(), All: map[string]string{availableSolvers[0].name: fl}}
+		}
+	}
 	ctx, cancel := context.WithTimeout(context.Background(), timeout+2*time.Second)
 	defer cancel()
 	type ans struct {
